@@ -755,3 +755,68 @@ def _split_affix_tuples(e):
                 return ast.BoolOp(op=ast.Or(), values=[ast.Call(func=_c.deepcopy(n.func), args=[x], keywords=[]) for x in n.args[0].elts])
             return n
     return ast.fix_missing_locations(T().visit(e))
+
+
+def enum_slice_loop(fn_node, loop):
+    """`for i, x in enumerate(S[lo:hi])` (optionally with leading `if <i beyond bound>: break` guards): the element x is S[lo + i] and
+    i runs over [0, min(hi - lo, guard bounds)).  Returns (i, x, S, lo, frozenset(exclusive upper bounds on the POSITION lo + i),
+    problems) with affine forms (len(S) is the symbol `len(S)`), or None."""
+    from .affine import simple_aff, Aff
+    if not (isinstance(loop, ast.For) and isinstance(loop.iter, ast.Call) and isinstance(loop.iter.func, ast.Name) and loop.iter.func.id == 'enumerate'
+            and len(loop.iter.args) == 1 and not loop.iter.keywords and isinstance(loop.target, ast.Tuple) and len(loop.target.elts) == 2
+            and all(isinstance(e, ast.Name) for e in loop.target.elts)):
+        return None
+    sl = loop.iter.args[0]
+    if not (isinstance(sl, ast.Subscript) and isinstance(sl.value, ast.Name) and isinstance(sl.slice, ast.Slice) and sl.slice.step is None):
+        return None
+    S = sl.value.id
+    LEN = Aff.sym(f'len({S})')
+
+    def bound(e, default):
+        if e is None:
+            return default
+        a = simple_aff(e)
+        if a is None:
+            return None
+        if a.is_const() and a.c < 0:
+            return LEN + a.c            # S[:-k] ends at len(S) - k
+        return a
+    lo, hi = bound(sl.slice.lower, Aff(0)), bound(sl.slice.upper, LEN)
+    if lo is None or hi is None:
+        return None
+    i, x = (e.id for e in loop.target.elts)
+    ups = {hi}
+    probs = []
+    # leading guards: `if <cond>: break` as the first statements of the body bound the index from above
+    for st in loop.body:
+        if isinstance(st, ast.If) and not st.orelse and len(st.body) == 1 and isinstance(st.body[0], ast.Break):
+            t = st.test
+            neg = False
+            while isinstance(t, ast.UnaryOp) and isinstance(t.op, ast.Not):
+                t, neg = t.operand, not neg
+            if not (isinstance(t, ast.Compare) and len(t.ops) == 1):
+                break
+            l, r = simple_aff(t.left), simple_aff(t.comparators[0])
+            if l is None or r is None:
+                break
+            op = type(t.ops[0])
+            # the loop CONTINUES while not(break condition)
+            cont = {ast.Lt: ast.GtE, ast.LtE: ast.Gt, ast.Gt: ast.LtE, ast.GtE: ast.Lt}.get(op) if not neg else op
+            if cont is None:
+                break
+            d = l - r               # continue while d (cont) 0
+            ci = d.t.get(i, 0)
+            if ci == 1 and cont in (ast.Lt, ast.LtE):
+                rest = Aff.sym(i) - d
+                ups.add(lo + (rest if cont is ast.Lt else rest + 1))
+            elif ci == -1 and cont in (ast.Gt, ast.GtE):
+                rest = Aff.sym(i) + d
+                ups.add(lo + (rest if cont is ast.Gt else rest + 1))
+            else:
+                break
+        else:
+            break
+    for n in ast.walk(loop):
+        if isinstance(n, ast.Name) and n.id in (i, x) and isinstance(n.ctx, ast.Store) and not any(n is e for e in loop.target.elts):
+            probs.append(f"loop variable {n.id} is rebound inside the loop")
+    return i, x, S, lo, frozenset(ups), probs
